@@ -897,8 +897,8 @@ func procWorkload(name string, count map[string]int, c01only bool) *Workload {
 }
 
 var procComponents = map[string][]string{
-	"real":      {"the jqawk binary built from /repo (cli.Run, flag parsing, os file handling, the whole interpreter)", "the kernel's file implementation (regular files, directories, /proc/self/mem, /dev/full)", "lang.EvalProgram + GetRootJson as the oracle"},
-	"simulated": {"argv, environment, working directory contents and filesystem fault states (seeded)", "stdin/stdout/stderr as regular files"},
+	"real":      {"the jqawk binary built from /repo (cli.Run, flag parsing, os file handling, the whole interpreter)", "the kernel's file implementation (regular files, directories, named pipes, pipes, /proc/self/mem, /proc/sys files, /dev/full)", "lang.EvalProgram + GetRootJson as the oracle"},
+	"simulated": {"argv, environment, working directory contents and filesystem fault states (seeded)", "stdout/stderr as regular files; stdin as a regular file (also at a non-zero offset) or a pipe"},
 	"stubbed":   {},
 }
 
@@ -906,7 +906,7 @@ func registerProc() {
 	register(&Property{
 		ID:    "C14",
 		Level: "exploration",
-		Rule:  "seeded command lines (-f / inline, stdin / one file / several files, 0-3 -r selectors, -o absent / - / FILE / existing FILE, --, environment variations) over seeded programs (trace, accumulator with document mutation, garbled, degenerate) and inputs, with filesystem fault states (missing / directory / /proc/self/mem inputs, missing -f file, -o into a missing directory / onto a directory / onto /dev/full, truncated files); the library on the same bytes is the oracle for stdout, JSON output and outcome; relations -f==inline, stdin==file, -r E==BEGINFILE{$=E} checked by a second invocation. Distinct = distinct (configuration shape, exit status); non-trivial = every executed case.",
+		Rule:  "seeded command lines (-f / inline, stdin / one file / several files, 0-3 -r selectors, -o absent / - / FILE / existing FILE, --, environment variations) over seeded programs (trace, accumulator with document mutation, garbled, degenerate) and inputs, with filesystem fault states (missing / directory / /proc/self/mem inputs, missing -f file, -o into a missing directory / onto a directory / onto /dev/full, truncated files); the library on the same bytes is the oracle for stdout, JSON output and outcome; relations -f==inline, stdin==file, -r E==BEGINFILE{$=E} checked by a second invocation; -r A -r B on one document against -r A followed by -r B for programs that change what they are given (selector-sum); named pipes, kernel-provided files, and standard input behind a file / a file at an offset / a pipe. Distinct = distinct (configuration shape, exit status); non-trivial = every executed case.",
 		Assumptions: []string{
 			"the library (lang.EvalProgram + GetRootJson) is the oracle, as the property states",
 			"stdout is not asserted when an input file is missing, -f is missing, or -o is combined with several inputs (the statement only fixes status and diagnostic there)",
@@ -926,6 +926,7 @@ func registerProc() {
 				NoRecheck:   true,
 				ShrinkEvals: 150,
 			},
+			selSumWorkload(map[string]int{"quick": 900, "thorough": 60000}),
 		},
 	})
 }
